@@ -151,6 +151,23 @@ func (c *Conn) PeerEnded() bool {
 	return c.pendingFin || c.pendingRst || c.rdEOF || c.rdReset
 }
 
+// Window returns the remaining send window (<0: unlimited).
+func (c *Conn) Window() int {
+	c.mu.Lock()
+	defer c.mu.Unlock()
+	return c.win
+}
+
+// AddWindow lets lal write n more bytes (a slowly reading peer).
+func (c *Conn) AddWindow(n int) {
+	c.mu.Lock()
+	if c.win >= 0 {
+		c.win += n
+	}
+	c.cond.Broadcast()
+	c.mu.Unlock()
+}
+
 // ClosedByLal reports whether lal closed its end.
 func (c *Conn) ClosedByLal() bool {
 	c.mu.Lock()
